@@ -29,6 +29,9 @@ pub trait Plan: Sys {
     fn n(quick: bool, heavy: bool) -> usize;
     /// delivery discipline the type documents as sufficient
     const DISC: Disc;
+    /// keep the actor-permutation symmetry reduction in the thorough tier too (sound for every type
+    /// except List, whose tie-breaking depends on actor order; Orswot runs without it as a cross-check)
+    const THOROUGH_SYM: bool = false;
 }
 
 impl Plan for Or {
@@ -60,6 +63,7 @@ impl Plan for Mv {
     const DISC: Disc = Disc::Any;
 }
 impl Plan for MapMv {
+    const THOROUGH_SYM: bool = true;
     fn alphabet() -> Vec<Cmd> {
         vec![cmd(mm::UP, 0, 0), cmd(mm::UP, 1, 0), cmd(mm::RM_GET, 0, 0), cmd(mm::RM_GET, 1, 0), cmd(mm::RM_CTX, 0, 0)]
     }
@@ -76,6 +80,7 @@ impl Plan for MapMv {
     const DISC: Disc = Disc::Fifo;
 }
 impl Plan for MapOr {
+    const THOROUGH_SYM: bool = true;
     fn alphabet() -> Vec<Cmd> {
         vec![cmd(mo::ADD, 0, 0), cmd(mo::ADD, 0, 1), cmd(mo::RM_MEMBER, 0, 0), cmd(mo::RM_KEY, 0, 0), cmd(mo::ADD, 1, 0), cmd(mo::RM_KEY, 1, 0), cmd(mo::RM_KEY_CTX, 0, 0)]
     }
@@ -93,6 +98,7 @@ impl Plan for MapOr {
 }
 
 impl Plan for MapMap {
+    const THOROUGH_SYM: bool = true;
     fn alphabet() -> Vec<Cmd> {
         vec![cmd(m2::ADD, 0, 0), cmd(m2::ADD, 0, 1), cmd(m2::RM_MEMBER, 0, 0), cmd(m2::RM_INNER, 0, 0), cmd(m2::RM_OUTER, 0, 0), cmd(m2::ADD, 0, 2), cmd(m2::ADD, 1, 0)]
     }
@@ -176,8 +182,12 @@ impl Plan for Gl {
     fn alphabet() -> Vec<Cmd> {
         vec![cmd(gl::INSERT, 0, 0), cmd(gl::INSERT, 1, 0), cmd(gl::INSERT, 2, 0), cmd(gl::AFTER, 0, 0), cmd(gl::AFTER, 1, 0), cmd(gl::BEFORE, 0, 0), cmd(gl::BEFORE, 1, 0)]
     }
-    fn n(q: bool, _heavy: bool) -> usize {
-        if q { 3 } else { 4 }
+    fn n(q: bool, heavy: bool) -> usize {
+        match (q, heavy) {
+            (true, _) => 4,
+            (false, true) => 4,
+            (false, false) => 5,
+        }
     }
     const DISC: Disc = Disc::Any;
 }
@@ -185,11 +195,11 @@ impl Plan for Li {
     fn alphabet() -> Vec<Cmd> {
         vec![cmd(li::INSERT, 0, 0), cmd(li::INSERT, 1, 0), cmd(li::INSERT, 2, 0), cmd(li::APPEND, 0, 0), cmd(li::DELETE, 0, 0), cmd(li::DELETE, 1, 0)]
     }
-    fn n(q: bool, heavy: bool) -> usize {
-        match (q, heavy) {
-            (true, _) => 3,
-            (false, true) => 4,
-            (false, false) => 5,
+    fn n(q: bool, _heavy: bool) -> usize {
+        if q {
+            4
+        } else {
+            5
         }
     }
     const DISC: Disc = Disc::Causal;
@@ -217,7 +227,7 @@ fn merkle_dags(n: usize, merge: bool) -> Cfg {
 
 fn plan_cfg<Y: Plan>(what: &str, q: bool, heavy: bool, disc: Disc, merge: bool) -> Cfg {
     let n = Y::n(q, heavy);
-    cfg(&format!("{} {} {:?}{} n<={}", Y::NAME, what, disc, if merge { "+merge" } else { "" }, n), n, Y::ACTORS, disc, merge, Y::alphabet(), q)
+    cfg(&format!("{} {} {:?}{} n<={}", Y::NAME, what, disc, if merge { "+merge" } else { "" }, n), n, Y::ACTORS, disc, merge, Y::alphabet(), q || Y::THOROUGH_SYM)
 }
 
 /// thorough tier only: one more op with the narrow alphabet and two actors
@@ -273,6 +283,9 @@ pub fn jobs(prop: &str, tier: &str) -> Vec<Box<dyn JobT>> {
             j.push(job::<Mk>(merkle_dags(if q { 4 } else { 5 }, true), Converge { closed_only: false, merge_vs_ops: true }));
             each!([Or, Mv, MapMv, MapOr, MapMap], |Y| job::<Y>(plan_cfg::<Y>("ops+merge", q, true, Disc::Causal, true), Converge { closed_only: false, merge_vs_ops: true }));
             each!([Or, MapMv, MapOr, MapMap], |Y| job::<Y>(plan_cfg::<Y>("ops+merge", q, true, Disc::Fifo, true), Converge { closed_only: false, merge_vs_ops: true }));
+            if !q {
+                each!([Or, MapOr, MapMv], |Y| job::<Y>(deep_cfg::<Y>("ops+merge", 5, Disc::Causal, true), Converge { closed_only: false, merge_vs_ops: true }));
+            }
         }
         "C04" => {
             j.push(job::<Or>(plan_cfg::<Or>("spec", q, true, Disc::Fifo, true), SpecMatch { cov_everywhere: true, use_cov: true }));
@@ -288,6 +301,8 @@ pub fn jobs(prop: &str, tier: &str) -> Vec<Box<dyn JobT>> {
         "C05" => {
             each!([MapMv, MapOr, MapMap], |Y| job::<Y>(plan_cfg::<Y>("spec", q, true, Disc::Causal, true), SpecMatch { cov_everywhere: false, use_cov: true }));
             each!([MapMv, MapOr, MapMap], |Y| job::<Y>(plan_cfg::<Y>("spec", q, false, Disc::Fifo, false), SpecMatch { cov_everywhere: true, use_cov: true }));
+            // merges of replicas that hold pending (overtaking) removes
+            each!([MapMv, MapOr, MapMap], |Y| job::<Y>(plan_cfg::<Y>("spec", q, true, Disc::Fifo, true), SpecMatch { cov_everywhere: true, use_cov: true }));
             if !q {
                 each!([MapMv, MapOr], |Y| job::<Y>(deep_cfg::<Y>("spec", 5, Disc::Causal, false), SpecMatch { cov_everywhere: false, use_cov: true }));
             }
@@ -392,7 +407,8 @@ pub fn jobs(prop: &str, tier: &str) -> Vec<Box<dyn JobT>> {
             });
             each!([Vc, Gc, Pn, Or, Mv, MapMv, MapOr, MapMap], |Y| {
                 let mut c = plan_cfg::<Y>("reset_remove", true, true, Y::DISC, true);
-                c.n = if q { 3 } else { 4 };
+                // (Orswot gets 4 ops in the quick tier too: two pending removes whose contexts collide need them)
+                c.n = if q { Y::n(true, true).max(3) } else { 4 };
                 c.label = format!("{} reset_remove with every grid clock, {:?}+merge n<={}", Y::NAME, Y::DISC, c.n);
                 job::<Y>(c, ResetRemoveCheck { actors: 3, max_counter: 2, compose: false })
             });
@@ -416,6 +432,7 @@ pub fn jobs(prop: &str, tier: &str) -> Vec<Box<dyn JobT>> {
         }
         "C20" => {
             each!([Or, Mv, MapMv, MapOr, MapMap, Vc, Gc, Pn, Gs, Lww, Mx, Mn, Gl, Mk], |Y| job::<Y>(plan_cfg::<Y>("== and residue", q, true, Y::DISC, true), EqResidue));
+            j.push(job::<Li>(no_sym(plan_cfg::<Li>("== under equal knowledge", q, false, Disc::Causal, false)), EqResidue));
             if !q {
                 j.push(job::<Or>(deep_cfg::<Or>("== and residue", 5, Disc::Fifo, true), EqResidue));
             }
